@@ -114,6 +114,12 @@ def chain_typing_ok(ops, ty):
     return True
 
 
+def chain_suspect(s):
+    """shapes that hit the known code-generation defect (first operator in/not in, C operand later on):
+    they can break a whole module (compiler crash, invalid C) or the process (segfault)"""
+    return s["ops"][0] in ("in", "notin") and any(t in C_TYPED for t in s["ty"][2:])
+
+
 def chain_doms(ty, nops, tier):
     base = CH_DOM if nops == 1 else (CH_DOM3[tier] if nops == 2 else CH_DOM4[tier])
     return [base if t == "o" else TY_DOM[t] for t in ty]
@@ -271,7 +277,7 @@ def strin_shapes(tier, rng):
                         "xdom": [xrec("int", v=v) for v in ints if 0 <= v <= 255]})
     for s in out:
         s["part"] = "strin"
-        s["cint"] = s["xty"] in ("i", "l")
+        s["cint"] = s["xty"] in ("i", "l", "c")
     return out
 
 
@@ -362,7 +368,8 @@ def render_switch(case, typing, name, rng):
         lines.append("    %s %s:\n        return %d\n" % ("if" if j == 0 else "elif", sw_cond(fam, typing, arm, rng), j + 1))
     if case["els"]:
         lines.append("    else:\n        return 0\n")
-    lines.append("    return -1\n")
+    else:
+        lines.append("    return -1\n")
     body = "".join(lines)
     return "def %s(%sx):\n%s" % (name, SW_DECL[typing], body), "def %s(x):\n%s" % (name, body)
 
